@@ -49,8 +49,8 @@ Proof.
   - apply gen_mp_eq.
 Qed.
 
-Lemma gen_cpu_count_eq : forall os_raw aff cg loky_env,
-  cpu_count os_raw aff cg loky_env false = Ok (cpu_count_model os_raw aff cg loky_env).
+Lemma gen_cpu_count_eq : forall os_raw aff cg loky_env phys,
+  cpu_count os_raw aff cg loky_env phys false = Ok (cpu_count_model os_raw aff cg loky_env).
 Proof.
   intros. unfold cpu_count, cpu_count_user, cpu_count_model, os_count, orelse. cbn [bind negb].
   destruct os_raw, aff, cg, loky_env; same_result.
@@ -571,10 +571,36 @@ Proof.
   apply conc_thr; [|assumption]. eexists; cbn [s_ctx]; split; [reflexivity|]. cbn. split; [reflexivity|lia].
 Qed.
 
+Lemma gen_cpu_count_physical_eq : forall os_raw aff cg loky_env phys,
+  cpu_count os_raw aff cg loky_env phys true = Ok (cpu_count_physical_model os_raw aff cg loky_env phys).
+Proof.
+  intros. unfold cpu_count, cpu_count_user, cpu_count_physical_model, cpu_user_model, cpu_count_model, os_count, orelse.
+  cbn [bind negb]. destruct os_raw, aff, cg, loky_env, phys; same_result.
+Qed.
+
+(* with only_physical_cores=True: at least 1 (physical counts reported are >= 1); a user limit below the machine's CPU count
+   is what comes back (floored at 1) whatever the physical count is; without such a limit the physical count, if known *)
+Lemma cpu_count_physical_spec : forall os_raw aff cg loky_env phys,
+  (forall p, phys = Some p -> 1 <= p) ->
+  let v := cpu_count_physical_model os_raw aff cg loky_env phys in
+  let user := cpu_user_model os_raw aff cg loky_env in
+  v >= 1 /\
+  (user < os_count os_raw -> v = Z.max user 1 /\ v = cpu_count_model os_raw aff cg loky_env) /\
+  (os_count os_raw <= user -> forall p, phys = Some p -> v = p).
+Proof.
+  intros os_raw aff cg loky_env phys Hp. cbn zeta. unfold cpu_count_physical_model.
+  pose proof (cpu_count_ge1 os_raw aff cg loky_env) as G.
+  destruct (cpu_user_model os_raw aff cg loky_env <? os_count os_raw) eqn:E.
+  - split; [lia|]. split; [|intros; lia]. intros _. split; [reflexivity|].
+    unfold cpu_count_model, cpu_user_model in *. lia.
+  - split; [destruct phys as [p|]; [specialize (Hp p eq_refl); lia|lia]|]. split; [intros; lia|].
+    intros _ p ->. reflexivity.
+Qed.
+
 (* ---------------------------------------------------------------- statements of Props/C15.v (the file Props/C15.v only restates them and closes each with `exact`) *)
-Lemma C15_translation_matches_model_holds : forall k e level n os_raw aff cg loky_env,
+Lemma C15_translation_matches_model_holds : forall k e level n os_raw aff cg loky_env phys,
   eff_gen k e level n = eff_model k e level n /\
-  cpu_count os_raw aff cg loky_env false = Ok (cpu_count_model os_raw aff cg loky_env).
+  cpu_count os_raw aff cg loky_env phys false = Ok (cpu_count_model os_raw aff cg loky_env).
 Proof. intros. split; [apply eff_gen_eq_model | apply gen_cpu_count_eq]. Qed.
 
 Lemma C15_resolve_holds : forall k e level n,
@@ -618,8 +644,8 @@ Lemma C15_one_is_sequential_holds : forall b e,
   forall s, worker_site s {| bkind := KSeq; blevel := blevel b |} = s.
 Proof. intros. split; [apply configure_one | reflexivity]. Qed.
 
-Lemma C15_cpu_count_holds : forall os_raw aff cg loky_env,
-  exists v, cpu_count os_raw aff cg loky_env false = Ok v /\ v >= 1 /\
+Lemma C15_cpu_count_holds : forall os_raw aff cg loky_env phys,
+  exists v, cpu_count os_raw aff cg loky_env phys false = Ok v /\ v >= 1 /\
   (forall c, 1 <= c -> (c = os_count os_raw \/ aff = Some c \/ cg = Some c \/ loky_env = Some c) -> v <= c) /\
   v = Z.max 1 (Z.min (os_count os_raw) (Z.min (orelse aff (os_count os_raw))
                  (Z.min (orelse cg (os_count os_raw)) (orelse loky_env (os_count os_raw))))).
